@@ -1,7 +1,7 @@
 // C04 - encoding bytecode and decoding it again preserves behaviour.
 //
 // Oracle (round trip, differential): B -> bytes -> B' (same module map) ->
-// bytes' -> B''. The three programs must have equal canonical dumps (Free is
+// bytes' -> B”. The three programs must have equal canonical dumps (Free is
 // not encoded) and must run to equal outcomes (value, L-log, globals, output,
 // error name+message and stack trace positions) on equal inputs.
 package c04
@@ -13,6 +13,7 @@ import (
 	"fmt"
 	"math"
 	"os"
+	"regexp"
 	"runtime/debug"
 	"sort"
 	"strings"
@@ -34,13 +35,15 @@ import (
 type replayCase struct {
 	prog.Case
 	NoOptimize bool        `json:"no_optimize"`
-	Stage      string      `json:"stage,omitempty"`    // which decoded program differed: B' or B''
-	Expected   run.Outcome `json:"expected"`           // outcome of the original bytecode
-	Got        run.Outcome `json:"got"`                // outcome of the decoded bytecode
+	Stage      string      `json:"stage,omitempty"`     // which decoded program differed: B' or B''
+	Expected   run.Outcome `json:"expected"`            // outcome of the original bytecode
+	Got        run.Outcome `json:"got"`                 // outcome of the decoded bytecode
 	DumpDiff   string      `json:"dump_diff,omitempty"` // first differing dump line (original / decoded)
 }
 
 // ---------------------------------------------------------------- primitives
+
+var digitsRe = regexp.MustCompile(`[0-9]+`)
 
 func firstWords(s string, n int) string {
 	s = run.FirstLine(s)
@@ -58,6 +61,8 @@ func firstWords(s string, n int) string {
 			s = s[:i] + "_" + s[i+1+j+1:]
 		}
 	}
+	// numbers are case data, not part of the class
+	s = digitsRe.ReplaceAllString(s, "N")
 	f := strings.Fields(s)
 	if len(f) > n {
 		f = f[:n]
@@ -311,6 +316,11 @@ func judge(in input, noopt bool) (v verdict) {
 	stages := []string{"B'", "B''"}
 	decoded := make([]*ugo.Bytecode, 0, 2)
 	cur := bc
+	defer func() {
+		if v.sig != "" && v.c.Expected.String() == (run.Outcome{}).String() && !strings.HasPrefix(v.sig, "roundtrip:") {
+			v.c.Expected = exec(bc, in) // information only: what the original does
+		}
+	}()
 	for _, st := range stages {
 		data, err, pan, site := encodeBC(cur)
 		if pan != "" {
@@ -345,6 +355,9 @@ func judge(in input, noopt bool) (v verdict) {
 		cur = next
 	}
 
+	if v.sig != "" {
+		return
+	}
 	// run the original first, then the decoded programs (no shared state allowed)
 	o0 := exec(bc, in)
 	v.out = o0
